@@ -1,0 +1,61 @@
+//go:build verif
+
+package webui
+
+import (
+	"net/http"
+
+	"github.com/inbucket/inbucket/v3/pkg/message"
+	"github.com/inbucket/inbucket/v3/pkg/server/web"
+	"github.com/inbucket/inbucket/v3/pkg/storage"
+)
+
+var _ message.Manager
+var _ web.Context
+var _ = storage.ErrNotExist
+
+func ghost_status(w http.ResponseWriter) int { panic("ghost") }
+
+// ---------------------------------------------------------------------------------------------
+// C14: the web UI handlers: one read through the manager, 404 for a missing message, no panic.
+
+//@ pred spec_reqOK(w http.ResponseWriter, req *http.Request, ctx *web.Context) bool = w != nil && req != nil && ctx != nil && ctx.Manager != nil
+
+//@ pred spec_noMutation(m message.Manager, ms int, pu int, rm int) bool =
+//@     message.Ghost_nMarkSeen(m) == ms && message.Ghost_nPurge(m) == pu && message.Ghost_nRemove(m) == rm
+
+//@ func MailboxMessage
+//@   requires spec_reqOK(w, req, ctx)
+//@   modifies *
+//@   ensures[readOnly] spec_noMutation(ctx.Manager, old(message.Ghost_nMarkSeen(ctx.Manager)), old(message.Ghost_nPurge(ctx.Manager)), old(message.Ghost_nRemove(ctx.Manager)))
+//@   ensures[missing404] message.Ghost_nGetMsg(ctx.Manager) == old(message.Ghost_nGetMsg(ctx.Manager)) + 1 && message.Ghost_lastErr(ctx.Manager) == storage.ErrNotExist ==>
+//@      err == nil && ghost_status(w) == 404
+//@   loop 1: invariant 0 <= ridx && vcFresh(attachments) && message.Spec_msgOK(msg) && message.Ghost_lastErr(ctx.Manager) != storage.ErrNotExist &&
+//@      spec_noMutation(ctx.Manager, old(message.Ghost_nMarkSeen(ctx.Manager)), old(message.Ghost_nPurge(ctx.Manager)), old(message.Ghost_nRemove(ctx.Manager)))
+//@   loop 2: invariant 0 <= ridx && vcFresh(mimeErrors) && message.Spec_msgOK(msg) && message.Ghost_lastErr(ctx.Manager) != storage.ErrNotExist &&
+//@      spec_noMutation(ctx.Manager, old(message.Ghost_nMarkSeen(ctx.Manager)), old(message.Ghost_nPurge(ctx.Manager)), old(message.Ghost_nRemove(ctx.Manager)))
+//@   serves C14
+
+//@ func MailboxHTML
+//@   requires spec_reqOK(w, req, ctx)
+//@   modifies *
+//@   ensures[readOnly] spec_noMutation(ctx.Manager, old(message.Ghost_nMarkSeen(ctx.Manager)), old(message.Ghost_nPurge(ctx.Manager)), old(message.Ghost_nRemove(ctx.Manager)))
+//@   ensures[missing404] message.Ghost_nGetMsg(ctx.Manager) == old(message.Ghost_nGetMsg(ctx.Manager)) + 1 && message.Ghost_lastErr(ctx.Manager) == storage.ErrNotExist ==>
+//@      err == nil && ghost_status(w) == 404
+//@   serves C14
+
+//@ func MailboxSource
+//@   requires spec_reqOK(w, req, ctx)
+//@   modifies *
+//@   ensures[readOnly] spec_noMutation(ctx.Manager, old(message.Ghost_nMarkSeen(ctx.Manager)), old(message.Ghost_nPurge(ctx.Manager)), old(message.Ghost_nRemove(ctx.Manager)))
+//@   ensures[missing404] message.Ghost_nSource(ctx.Manager) == old(message.Ghost_nSource(ctx.Manager)) + 1 && message.Ghost_lastErr(ctx.Manager) == storage.ErrNotExist ==>
+//@      err == nil && ghost_status(w) == 404
+//@   serves C14 C02
+
+//@ func MailboxViewAttach
+//@   requires spec_reqOK(w, req, ctx)
+//@   modifies *
+//@   ensures[readOnly] spec_noMutation(ctx.Manager, old(message.Ghost_nMarkSeen(ctx.Manager)), old(message.Ghost_nPurge(ctx.Manager)), old(message.Ghost_nRemove(ctx.Manager)))
+//@   ensures[missing404] message.Ghost_nGetMsg(ctx.Manager) == old(message.Ghost_nGetMsg(ctx.Manager)) + 1 && message.Ghost_lastErr(ctx.Manager) == storage.ErrNotExist ==>
+//@      err == nil && ghost_status(w) == 404
+//@   serves C14
